@@ -1,6 +1,7 @@
 package executor
 
 import (
+	"strconv"
 	"encoding/json"
 
 	"github.com/vektah/gqlparser/v2/ast"
@@ -234,4 +235,24 @@ func VerifChildrenOrder() {
 		verifReach("children stitched")
 	}
 	verifOutcome("idA="+idA+" idB="+idB, outcome)
+}
+
+// VerifPointData: the point syntax <field>:<index>#<id> round-trips for EVERY list index a result can
+// have (the index is a symbolic integer; the numeral is its decimal rendering) and for ids that contain
+// the separators themselves.
+func VerifPointData() {
+	s := verifNumStr("index", 0, 2147483647)
+	if verifChoice("concrete-index", 2) == 1 {
+		s = "130" // the same with a point that is one concrete string
+	}
+	want, _ := strconv.Atoi(s)
+	id := []string{"u1", "#7", "7", "a#b:2", ""}[verifChoice("id", 5)]
+	e := &CachedPointDataExtractor{cache: make(map[string]*PointData)}
+	pd, err := e.Extract("users:" + s + "#" + id)
+	verifAssert(err == nil, "a point with a list index is understood, however long the list")
+	if err == nil {
+		verifAssert(pd.Field == "users" && pd.Index == want, "field and index are the ones written into the point")
+		verifAssert(pd.ID == id, "the id is the one written into the point, separators included")
+	}
+	verifReach("point parsed")
 }
